@@ -28,6 +28,9 @@ Definition hinfo (m : N) : minfo :=
   (* trait P: `fn mt(&self, a: u8) -> (Uniq, &str, Uniq)`: a single-use response is TWO single-use slots, taken one after the other *)
   | 9 => {| mi_trait := "P"; mi_method := "mt"; mi_has_default := false; mi_partial_by_default := false;
             mi_has_unmock_arm := false; mi_out_clone := false; mi_more_leaves := 1 |}
+  (* trait HD: the hidden-API form (no `api=`): no clause can mention its methods *)
+  | 36 => mk_info "HD" "hreq" false true true
+  | 37 => mk_info "HD" "hprov" true false true
   (* R1::get<u8>, R2::get<u8>: same-named method-generic methods of two traits in one module *)
   | 38 => mk_info "R1" "get" false false true
   | 39 => mk_info "R2" "get" false false true
@@ -241,7 +244,8 @@ Definition body_calls (a : N) : list (N * N) :=
   map (fun j => ((if Nat.even j then 10 else 11), (a + N.of_nat j) mod 8)) (seq 0 (N.to_nat (a mod 4))).
 (* p_rc2's own body: exactly one call, of the Rc-receiver required method, with the same argument *)
 Definition body_calls_of (m a : N) : list (N * N) :=
-  if (m =? 24) || (m =? 35) then [(23, a)] else if m =? 30 then [(29, a)] else if m =? 34 then [(33, a)] else body_calls a.
+  if (m =? 24) || (m =? 35) then [(23, a)] else if m =? 30 then [(29, a)] else if m =? 34 then [(33, a)] else if m =? 37 then [(36, a)]
+  else body_calls a.
 
 (* a default body: the calls [cs] one after the other through [step]; the first panic ends it *)
 Fixpoint body_loop (step : state -> N -> N -> N -> state * N * (string + string) * N) (finish : list string -> string)
